@@ -4,5 +4,6 @@ set -e
 cd "$(dirname "$0")"
 export CARGO_NET_OFFLINE=true
 (cd harness && cargo build --release --offline)
+(cd nativecheck && cargo build --release --offline)
 if [ -d loomcheck ]; then (cd loomcheck && cargo build --release --offline); fi
 mkdir -p evidence
